@@ -125,6 +125,22 @@ def run(env, rep):
         r = rets[0][1] if rets else ""
         idx = sorted(int(x) for x in re.findall(r"elem\[(\d+)\]", r))
         m = re.search(r"Rem (\d+)\) Add (\d+)\)$", r)
+        if not idx:
+            # the same bytes summed through an iterator over a sub-slice: data[a..b].iter().map(|x| *x as u32).sum()
+            exo = grammar.Extractor(env, b[bk].key, "r")
+            exo.probe = lambda it_, S_: S_.read((it_.L(0), ()))
+            exo.run()
+            for pth in exo.paths:
+                for tk in pth:
+                    if tk[0] == "probe":
+                        for x in subterms(tk[1]):
+                            if isinstance(x, tuple) and x[0] == "model" and x[1] == "sum-of-bytes":
+                                vw = x[2]
+                                while isinstance(vw, tuple) and vw[0] == "upd":
+                                    vw = vw[1]
+                                if isinstance(vw, tuple) and vw[0] == "model" and vw[1] == "view" and const_val(vw[3]) is not None and const_val(vw[4]) is not None \
+                                        and contains(vw[2], lambda z: is_param_load(z, 1) or (isinstance(z, tuple) and z[0] == "ld" and z[1][0][0] == "P" and is_param_load(z[1][0][1], 1))):
+                                    idx = list(range(const_val(vw[3]), const_val(vw[3]) + const_val(vw[4])))
         shape = ctx.ret_shape(b[bk].key)
         d = shape["dom"] if shape else None
         good = idx == row["bytes"] and m is not None and int(m.group(1)) == row["modulus"] and int(m.group(2)) == row["base"] and d is not None and [d.lo, d.hi] == row["range"]
@@ -259,6 +275,20 @@ def run(env, rep):
                 base, off = S.norm(idx)
                 d = S.dom(idx)
                 placed = off == prefix and d.lo >= prefix and d.hi <= spec["packet_size"] - 1
+    if not placed:
+        # or: copied there in one piece (copy_from_slice into output_packet[1504..])
+        for bi in pb.rpo:
+            S = it.exit_state(bi)
+            if S is None or placed:
+                continue
+            for li, l in enumerate(pb.locals):
+                if l["name"] == "output_packet":
+                    rg = S.read((it.L(li), (("regions",),)))
+                    if isinstance(rg, tuple) and rg[0] == "model" and rg[1] == "regions":
+                        for start, ln, src in rg[2]:
+                            if const_val(start) == prefix and const_val(ln) == spec["packet_size"] - prefix and \
+                                    contains(src, lambda x: isinstance(x, tuple) and x[0] == "call" and "calc_hmac" in str(x[2])):
+                                placed = True
     rep.check("C11.R3", "signature-placement", placed, "the signature is stored at output_packet[1504 + i], i < 32", "the packet-2 signature is not stored at offset 1504..1535 of the outgoing packet", pb.span)
     # ------------------------------------------------------------------ R4 echo
     echo = False
@@ -280,8 +310,17 @@ def run(env, rep):
                 it.cur = (bi, si)
                 val = it.eval_op(S, rv["ops"][0])
                 if contains(val, lambda x: x[0] == "model" and x[1] == "to_vec"):
-                    # the copied array was filled from the drained input
+                    # the copied array was filled from the drained input, item by item ...
                     echo = contains(val, lambda x: x[0] == "call" and "drain" in (x[2] or "").lower())
+                    # ... or in one piece from the first 1536 bytes of the input buffer
+                    def first_packet(x):
+                        if not (isinstance(x, tuple) and x[0] == "model" and x[1] == "regions" and len(x[2]) == 1):
+                            return False
+                        start, ln, src = x[2][0]
+                        return const_val(start) == 0 and const_val(ln) == spec["packet_size"] and contains(
+                            src, lambda y: isinstance(y, tuple) and y[0] == "model" and y[1] == "view" and const_val(y[3]) == 0 and
+                            contains(y[2], lambda z: isinstance(z, tuple) and z[0] == "ld" and z[1][1] and z[1][1][-1][0] == "f" and z[1][1][-1][2] == "input_buffer"))
+                    echo = echo or contains(val, first_packet)
     rep.check("C11.R4", "echo-without-digest", echo, "without a digest the response is a copy of the received packet 1", "the digest-less fallback does not answer with the received packet", pb.span)
     # a packet 1 without a digest is never an error: once 1536 bytes are there, no path of the packet-1 stage returns Err
     # (the digest search fails only with 'no digest found', and that case is answered with the echo)
